@@ -185,7 +185,7 @@ SPECS = {
  "C11": {
   "level": "fault_enumeration",
   "passes": [fsm("^TestC11$")],
-  "rule": "family strings: every fault string of length <= 3 (quick) / <= 5 (thorough) over the 11-symbol alphabet {refuse, stall, close|reset|cease @ OpenSent|OpenConfirm|Established} (exhaustive), each applied to the successive outbound attempts of an active peer "
+  "rule": "family strings: every fault string of length <= 3 (quick) / <= 5 (thorough) over the 12-symbol alphabet {refuse, stall, collide (the remote establishes an inbound session and closes corebgp's OpenSent connection at the same instant, later drops the session), close|reset|cease @ OpenSent|OpenConfirm|Established} (exhaustive), each applied to the successive outbound attempts of an active peer "
           "(or to successive inbound connections of a passive one) with (idle-hold, connect-retry) drawn from {(5s,5s),(1s,30s),(30s,1s),(100ms,100ms)}, followed by a well-behaved remote; family long: random strings of length 4-6 (3000 quick, 120000 thorough); family inbound-end: an inbound Established session of an active peer ends "
           "by close/reset/Cease; family realdial: real refused loopback dials inside the bubble observed through WithDialerControl. Oracle on the dial log (virtual timestamps from the dial hook / DialerControl): refused attempt followed by the next after idle-hold (never earlier than idle-hold-5ms, never later than idle-hold+connect-retry), "
           "stalled attempt cancelled and replaced within connect-retry, new attempt within idle-hold+connect-retry after any other fault, Established within idle-hold+connect-retry+1s of the last fault (liveness restated as bounded progress), passive peers never dial, dialling resumes <= 5 ms after an inbound session ends and a new inbound connection is served.",
